@@ -25,6 +25,7 @@ def run(chk):
     batcher.wait_closures(chk, P, "C09")
     batcher.send_or_wait_outcomes(chk, P, "C09")
     batcher.who_may(chk, P, "C09")
+    batcher.state_stays_inside(chk, P, "C09")
     batcher.constructor_rule(chk, P, "C09")
     batcher.emit_only_enqueues(chk, P, "C09")
     batcher.channel_impls(chk, P, "C09")
